@@ -786,6 +786,58 @@ func ruleC10_4(c *Ctx, r *Rep) {
 			r.Check("C10.4", "C10.4:target@"+sp.fn, after.Pos(), okT, "", "the notification does not name the affected subscription")
 		}
 	}
+	// dead-lettering wakes the SOURCE subscription of the retired delivery (its ordered successor may be next): every
+	// wake / notifyPublish that belongs to deadLetterDelivery itself names data.DeliverySubscriptionID
+	if dlf := c.Fn(fnDeadLetter); dlf != nil {
+		nW, okW := 0, true
+		var scan func(f *ssa.Function)
+		seenF := map[*ssa.Function]bool{}
+		scan = func(f *ssa.Function) {
+			if seenF[f] {
+				return
+			}
+			seenF[f] = true
+			for _, b := range f.Blocks {
+				for _, in := range b.Instrs {
+					call, ok := in.(*ssa.Call)
+					if !ok {
+						continue
+					}
+					cal := call.Call.StaticCallee()
+					if cal == nil || c.PkgOf(cal) != "actions" {
+						continue
+					}
+					if cal.Name() != "WakePublishListeners" && cal.Name() != "notifyPublish" {
+						continue
+					}
+					nW++
+					named := false
+					for _, el := range c.EntShape().sliceElems(call.Call.Args[1], &frame{bind: map[*ssa.Parameter]ssa.Value{}}, 0) {
+						v := el.v
+						if u, isU := v.(unknownSlice); isU {
+							v = u.Value
+						}
+						if sources(v)["field:DeliverySubscriptionID"] {
+							named = true
+						}
+					}
+					if !named {
+						okW = false
+					}
+				}
+			}
+			for _, a := range f.AnonFuncs {
+				scan(a)
+			}
+		}
+		for _, f := range c.opFuncs(dlf) {
+			// helpers shared with other operations (notifyPublish itself) are judged at their call in here
+			if f == dlf || c.partOf(f, fnDeadLetter, 0) {
+				scan(f)
+			}
+		}
+		r.Check("C10.4", "C10.4:target@"+fnDeadLetter, dlf.Pos(), nW > 0 && okW, "wakes data.DeliverySubscriptionID", "the wake-up that follows a dead-lettering does not name the subscription the retired delivery belonged to (data.DeliverySubscriptionID): a puller waiting for the ordered successor is not woken")
+	}
 	// dead-letter forwards wake the target subscriptions because they go through deliverToSubscription (C03.3/C06.4)
 	// ack's hook wakes exactly the subscriptions of the acked deliveries
 	if fn := c.Fn(fnAck); fn != nil {
